@@ -17,6 +17,103 @@ func init() {
 	scenarios["c08.term"] = scC08Term
 	scenarios["c18.close"] = scC18Close
 	scenarios["c18.badchan"] = scC18BadChan
+	scenarios["c08.reuse"] = scC08Reuse
+	scenarios["c18.backlog"] = scC18Backlog
+}
+
+// c18.backlog: the client is closed while a subscription has tens of thousands of values nobody has read yet; the closer returns
+// all the same and the channel is closed (the application may read what is buffered or not at all).
+func scC18Backlog(w *World, a Args, rng *rand.Rand) error {
+	A, err := w.NewClient(ClientOpts{Name: "A", NoPing: true})
+	if err != nil {
+		return err
+	}
+	w.Proxy.quiet = true
+	n := a.Int("n", 40000)
+	w.Plan(3, &Plan{})
+	d := make(chan struct{})
+	gate := make(chan struct{}) // nobody reads until the client has been closed
+	go func() {
+		ch, out := A.Subscribe(context.Background(), 3, n, "")
+		if out == "ok" && ch != nil {
+			w.Consume(3, ch, gate, d)
+		} else {
+			close(d)
+		}
+	}()
+	dl := time.Now().Add(patience(20 * time.Second))
+	for sent := false; !sent && time.Now().Before(dl); time.Sleep(5 * time.Millisecond) {
+		for _, e := range w.Rec.Events() {
+			if e["ev"] == "HandlerChanClose" && e["call"] == 3 {
+				sent = true
+			}
+		}
+	}
+	time.Sleep(20 * time.Millisecond)
+	returned := w.CloseClient(A)
+	close(gate)
+	waitCh(d, patience(5*time.Second))
+	w.Rec.Emit("Quiesce", "cli", "", "probe", "none", "waiting", intsOrEmpty(w.Waiting()), "lost", []int{}, "closerReturned", returned, "expectClosed", []int{3})
+	return nil
+}
+
+// c08.reuse: subscription A ends with its connection; on the next connection subscription B gets the same channel id; only then
+// is A's context cancelled (late clean-up of A must not touch B): B still receives everything and is closed by its handler.
+func scC08Reuse(w *World, a Args, rng *rand.Rand) error {
+	applyDelays(w, a)
+	A, err := w.NewClient(ClientOpts{Name: "A", NoPing: true, BackoffMin: 2 * time.Millisecond, BackoffMax: 8 * time.Millisecond})
+	if err != nil {
+		return err
+	}
+	ctxA, cancelA := context.WithCancel(context.Background())
+	defer cancelA()
+	w.Plan(3, &Plan{NoClose: true, NoCloseMs: 1000})
+	dA := make(chan struct{})
+	go func() {
+		ch, out := A.Subscribe(ctxA, 3, 2, "")
+		if out == "ok" && ch != nil {
+			w.Consume(3, ch, nil, dA)
+		} else {
+			close(dA)
+		}
+	}()
+	w.WaitRunning(3, time.Second)
+	time.Sleep(5 * time.Millisecond)
+	pc := w.Proxy.Last()
+	w.Rec.Emit("WireFault", "conn", pc.ID, "fault", "kill/fin", "dir", "both", "frame", 0)
+	pc.Kill("fin")
+	waitCh(dA, patience(3*time.Second)) // A's channel is closed by the loss of its connection
+	dl := time.Now().Add(patience(3 * time.Second))
+	for tok := 6; tok < 400 && time.Now().Before(dl); tok += 10 {
+		if o := A.CallT("unary", tok, patience(time.Second)); o == "ok" || o == "pending" {
+			break
+		}
+		time.Sleep(3 * time.Millisecond)
+	}
+	step := make(chan struct{}, 8)
+	w.Plan(13, &Plan{Step: step})
+	dB := make(chan struct{})
+	go func() {
+		ch, out := A.Subscribe(context.Background(), 13, 4, "")
+		if out == "ok" && ch != nil {
+			w.Consume(13, ch, nil, dB)
+		} else {
+			close(dB)
+		}
+	}()
+	w.WaitRunning(13, time.Second)
+	step <- struct{}{}
+	step <- struct{}{}
+	time.Sleep(5 * time.Millisecond)
+	w.Rec.Emit("CallerCancel", "call", 3)
+	cancelA() // the old subscription's context ends now
+	time.Sleep(time.Duration(a.Int("gapms", 10)) * time.Millisecond)
+	step <- struct{}{}
+	step <- struct{}{}
+	waitCh(dB, patience(3*time.Second))
+	w.Release(3)
+	w.Rec.Emit("Quiesce", "cli", "A", "probe", "none", "waiting", intsOrEmpty(w.Waiting()), "lost", []int{}, "expectClosed", []int{3, 13})
+	return nil
 }
 
 func has(l []int, x int) bool {
@@ -180,6 +277,19 @@ func scC07Stream(w *World, a Args, rng *rand.Rand) error {
 	closeOrder := a.Ints("closeorder") // streams that are kept open and closed by the handler in this order
 	staged := a.Bool("staged")
 	steps := map[int]chan struct{}{}
+	shapes, _ := a["shapes"].([]interface{}) // "only": the method's sole result is the channel
+	if a.Bool("nan") {
+		// next to the streams under test, one whose second value cannot be encoded: it is the forwarder's business to skip it
+		go func() {
+			ctx, cancel := context.WithTimeout(context.Background(), 3*time.Second)
+			defer cancel()
+			if ch, err := A.API.SubF(ctx, 990, 3); err == nil && ch != nil {
+				for range ch {
+				}
+			}
+		}()
+		time.Sleep(time.Millisecond)
+	}
 	var wg sync.WaitGroup
 	dones := map[int]chan struct{}{}
 	stalled := []int{}
@@ -212,9 +322,13 @@ func scC07Stream(w *World, a Args, rng *rand.Rand) error {
 			stalled = append(stalled, tok)
 		}
 		wg.Add(1)
+		shape := ""
+		if i < len(shapes) && shapes[i] == "only" {
+			shape = "only"
+		}
 		go func(tok, n int, mode string) {
 			defer wg.Done()
-			ch, out := A.Subscribe(ctx, tok, n, "")
+			ch, out := A.Subscribe(ctx, tok, n, shape)
 			if out != "ok" || ch == nil {
 				close(d)
 				return
